@@ -4,13 +4,15 @@ module vh
 go 1.23.4
 
 require (
+	github.com/karino2/folang/pkg/buf v0.0.0
+	github.com/karino2/folang/pkg/dict v0.0.0
 	github.com/karino2/folang/pkg/frt v0.0.0
 	github.com/karino2/folang/pkg/slice v0.0.0
-	github.com/karino2/folang/pkg/dict v0.0.0
 	github.com/karino2/folang/pkg/strings v0.0.0
-	github.com/karino2/folang/pkg/buf v0.0.0
 	github.com/karino2/folang/pkg/sys v0.0.0
 )
+
+require github.com/google/go-cmp v0.6.0 // indirect
 
 replace github.com/karino2/folang/pkg/frt => /repo/pkg/frt
 
